@@ -438,7 +438,7 @@ func subsValues(tier core.Tier, orig byte) []byte {
 		return out
 	}
 	seen := map[byte]bool{orig: true}
-	for _, v := range []byte{orig ^ 0x01, orig ^ 0x80, 0x00, 0xFF} {
+	for _, v := range []byte{orig ^ 0x01, orig ^ 0x20, orig ^ 0x80, 0x00, 0xFF} { // ^0x20: the case of an ASCII letter
 		if !seen[v] {
 			seen[v] = true
 			out = append(out, v)
@@ -640,7 +640,7 @@ func main() {
 		os.RemoveAll(e.root)
 		run.Finish()
 	}
-	run.Set("rule", "for a 2-graph dump (3+1 nodes, 2 relationships, shard 2) in each codec {none,gzip,zstd}: every byte position of every dump file, of its TAR and of its encrypted archive x substitutions {^0x01,^0x80,0x00,0xFF} (quick) / all 255 values (thorough) for UnpackTar, Unpack and Load(dir) on the codec-none TAR, encrypted archive and dump files; every truncation length; appended garbage (1 byte, 1-2 TAR blocks, last frame again, whole stream again); structural edits of the manifest (each count/size +-1, each hash nibble, paths, codec, phase, graph names, entry order/duplication/deletion, metrics histograms with recomputed fingerprint), of fragments (swap, delete, empty), of TAR entries (swap, duplicate, delete) and encrypted frames (swap, duplicate, delete, retype); hostile TAR entries (absolute / parent / volume / backslash / blank / long / duplicate names, link / device / fifo / directory / GNU-long-name / PAX entries, oversize / undersize / negative / huge sizes) raw and re-encrypted to the recipient; wrong, edited, truncated and public-as-private keys. Entry points: Load(dir), Load(archive), UnpackTar, UnpackEncryptedCollectionArchive, Unpack, Unpack(force, existing output), Unpack(existing empty output directory), UnpackEncryptedCollectionArchiveFile")
+	run.Set("rule", "for a 2-graph dump (3+1 nodes, 2 relationships, shard 2) in each codec {none,gzip,zstd}: every byte position of every dump file, of its TAR and of its encrypted archive x substitutions {^0x01,^0x20,^0x80,0x00,0xFF} (quick) / all 255 values (thorough) for UnpackTar, Unpack and Load(dir) on the codec-none TAR, encrypted archive and dump files; every truncation length; appended garbage (1 byte, 1-2 TAR blocks, last frame again, whole stream again); structural edits of the manifest (each count/size +-1, each hash nibble, paths, codec, phase, graph names, entry order/duplication/deletion, metrics histograms with recomputed fingerprint), of fragments (swap, delete, empty), of TAR entries (swap, duplicate, delete) and encrypted frames (swap, duplicate, delete, retype); hostile TAR entries (absolute / parent / volume / backslash / blank / long / duplicate names, link / device / fifo / directory / GNU-long-name / PAX entries, oversize / undersize / negative / huge sizes) raw and re-encrypted to the recipient; wrong, edited, truncated and public-as-private keys. Entry points: Load(dir), Load(archive), UnpackTar, UnpackEncryptedCollectionArchive, Unpack, Unpack(force, existing output), Unpack(existing empty output directory), UnpackEncryptedCollectionArchiveFile")
 	run.Assume("a write call reaching the fake target database counts as 'written' (drivers may flush at any call)")
 	run.Assume("bytes nothing authenticates (manifest whitespace, generated_at, driver, unknown keys; TAR padding, mtime, uid) may be accepted only with a result identical to the pristine run; both counts are reported (rejected / accepted_with_identical_result)")
 	run.Assume("time-of-check/time-of-use changes of the dump directory during Load are out of scope (the property speaks of the input as given)")
